@@ -113,8 +113,10 @@ impl XRefTable {
                 let should_be_updated = match *dst {
                     XRef::Raw { gen_nr: gen, .. } | XRef::Free { gen_nr: gen, .. }
                         => entry.get_gen_nr() > gen,
-                    XRef::Stream { .. } | XRef::Invalid
-                        => true,
+                    // sections are added newest first: a compressed entry is never
+                        // superseded by an older section
+                    XRef::Stream { .. } => false,
+                    XRef::Invalid => true,
                     x => bail!("found {:?}", x)
                 };
                 if should_be_updated {
